@@ -49,8 +49,8 @@ case "$cmd" in
     eng="$(engine_of "$id")"
     [ "$eng" = none ] && { echo "MACHINERY-FAILURE: unknown property $id"; exit 2; }
     build_pkg "$eng" || exit 2
-    # the C08 check also runs the sequential content oracle of the enumeration binary
-    if [ "$id" = C08 ]; then build_pkg e1 || exit 2; export VERIF_E1_BIN="$CARGO_TARGET_DIR/release/e1"; fi
+    # C08 also runs the sequential content oracle, C09 the scheduler monitors of the enumeration binary
+    if [ "$id" = C08 ] || [ "$id" = C09 ]; then build_pkg e1 || exit 2; export VERIF_E1_BIN="$CARGO_TARGET_DIR/release/e1"; fi
     export VERIF_TIER="$tier"
     if [ "$id" = C16 ]; then
       export VERIF_UNICODE_REF="$CARGO_TARGET_DIR/unicode_ref.txt"
